@@ -156,6 +156,29 @@ def build(inp):
         obs.append([not isinstance(rv, E), ov])
         if why is None and (isinstance(rv, E) != isinstance(rm, E) or ov != om):
             why = "command %d behaves differently on the virtual tree than on the materialised tree" % (k + 1)
+    # navigation probes AFTER the history (leaf-ness of many nodes is known by now: encode_bytes asked it), on the held
+    # top-level backings: every position that exists in the materialised tree and the two positions below every leaf
+    if why is None and consistent:
+        try:
+            vb, mb = shv.views[0].get_backing(), shm.views[0].get_backing()
+            pos, frontier = [1], [(1, mb)]
+            for _ in range(7):
+                nxt = []
+                for g, n_ in frontier:
+                    if n_.is_leaf():
+                        pos += [2 * g, 2 * g + 1]
+                    else:
+                        nxt += [(2 * g, n_.get_left()), (2 * g + 1, n_.get_right())]
+                pos += [g for g, _ in nxt]
+                frontier = nxt[:24]
+            for g in pos[:120]:
+                pv = attempt(lambda: bytes(vb.getter(g).merkle_root()))
+                pm = attempt(lambda: bytes(mb.getter(g).merkle_root()))
+                if pv != pm:
+                    why = "after the history, getter(%d) on the virtual tree gives %r, on the materialised tree %r" % (g, pv, pm)
+                    break
+        except Exception as e:  # noqa
+            why = "navigation probes after the history could not be run: %r" % (e,)
     for pr in store.proxies:
         if why is None and len(set(pr.asked)) != len(pr.asked):
             why = "a virtual node obtained the same child / leaf answer from its source twice: %r" % (pr.asked,)
